@@ -130,6 +130,13 @@ func litStr(t *wty, bits uint32) string {
 		if v == -2147483648 {
 			return "(-2147483647i - 1i)"
 		}
+		if wBareInts && v > -2147483648 {
+			// abstract-int spelling (C14: override initialisers `= (33 - 2) * 26` next to `(33i - 2i) * 26i`)
+			if v < 0 {
+				return fmt.Sprintf("(%d)", v)
+			}
+			return fmt.Sprintf("%d", v)
+		}
 		if v < 0 {
 			return fmt.Sprintf("(%di)", v)
 		}
@@ -156,6 +163,9 @@ type renderOpts struct {
 }
 
 var wrender *renderOpts
+
+// wBareInts: i32 literals are written without the `i` suffix (set only while C14 renders override initialisers).
+var wBareInts bool
 
 func joinArgs(as []string) string {
 	s := strings.Join(as, ", ")
